@@ -48,13 +48,18 @@ MODEL = "run"
 EQB = "(list_eqb event_eqb)"
 SHARD = 200
 RULE = ("recording plugin field format and check classes defined in the harness process and resolved by class name "
-        "('Rec') like built-ins - a tenth of the cases with classes created only at that moment, after many CIDs have been read in the process - x CIDs with 1..4 such fields (empty flag, length, allowed characters varied; delimited "
+        "('Rec') like built-ins - a tenth of the cases with classes created only at that moment, after many CIDs have been read in the process, a few supplied by a plugin folder scanned with interface.import_plugins - x CIDs with 1..4 such fields (empty flag, length, allowed characters varied; delimited "
         "and fixed) and 0..3 such checks (accepting, vetoing a row, failing at the end) x tables of 0..6 rows x header "
         "0..2 x validation limit x the three modes x reader and writer (write_row calls, or write_rows calls on portions of the rows) x 1..3 repeated runs on one CID; the recorded "
         "call sequence (reset / validated_value / check_row / check_at_end / cleanup with their arguments) must equal "
         "the model's log. Non-trivial: the log contains a validated_value or check_row call. Distinct = distinct case.")
 TRUSTED = ["row readers deliver the logical rows (C12/C13)"]
 ASSUMPTIONS = ["plugin classes are direct subclasses of AbstractFieldFormat / AbstractCheck registered before the CID is created"]
+
+
+import os
+import common as _C
+PLUGIN_TMP = os.path.join(_C.BUILD, "C20", "plugins")
 
 
 def canon_log(log, spec):
@@ -171,4 +176,8 @@ def gen_inputs(tier, rnd):
         if rnd.random() < 0.1:
             # plugin classes that come into being only now, long after the first CID of this process was read
             spec["rec_name"] = "Late%d" % rnd.randrange(10 ** 9)
+        elif rnd.random() < 0.03:
+            # ... or are supplied by a plugin folder that cutplace scans (interface.import_plugins)
+            spec["rec_name"] = "Plug%d" % rnd.randrange(10 ** 9)
+            spec["plugin_folder"] = PLUGIN_TMP
         yield {"spec": spec, "runs": runs}
